@@ -113,7 +113,7 @@ def regenerate(log):
                 else:
                     install_if_changed(tmpv, os.path.join(COQ, 'Gen/Params_gen.v'))
         tmpk = os.path.join(CACHE, 'Kernels_gen.v')
-        rc, out, dt = sh([sys.executable, os.path.join(VERIF, 'tools/kt.py'), REPO, tmpk], timeout=300)
+        rc, out, dt = sh([sys.executable, os.path.join(VERIF, 'tools/kt.py'), REPO, tmpk], timeout=900)
         log.append(f'[regen] kt rc={rc} {dt:.1f}s')
         if os.path.exists(tmpk):
             install_if_changed(tmpk, os.path.join(COQ, 'Gen/Kernels_gen.v'))
